@@ -274,6 +274,7 @@ def run_impl(case):
     if obs["keyerror"]:
         return obs
     obs["clauses"] = [[[nmap.var(l.v), bool(l.s)] for l in c] for c in sm.clauses]
+    obs["vtable"] = [nmap.var(v) for v in sm.vtable[1:]]
     if obs["zerodiv"]:
         return obs
     (c1, c2), rects, quality = ret
@@ -356,11 +357,11 @@ def to_coq(case, obs):
          f"{gdict(obs['prevx'])} {gdict(obs['nextx'])} {gdict(obs['prevy'])} {gdict(obs['nexty'])} "
          f"{gbool(obs['keyerror'])} ")
     if obs["keyerror"]:
-        o += "[] false [] 0%Z [])"
+        o += "[] false [] 0%Z [] [])"
     else:
         o += (f"{glist([glist([glit(l) for l in c]) for c in obs['clauses']])} {gbool(obs['sat'])} "
               f"{glist([gvar(v) for v in obs.get('true', [])])} {gz(obs['ret'][0])} "
-              f"{glist([gbox(r) for r in obs['rects']])})")
+              f"{glist([gbox(r) for r in obs['rects']])} {glist([gvar(v) for v in obs['vtable']])})")
     e = (f"c08_check Repaired {gproblem(case)} {case['k']} {gq(case['factor'])} {gq(case['ratio'])} "
          f"{gz(case['bound'])} {gmem(obs['mem0'])} {o}")
     if not obs["keyerror"]:
